@@ -41,6 +41,7 @@ def bootstrap():
             sys.path.remove(p)
         sys.path.insert(0, p)
     os.environ[GUARD] = "1"
+    os.environ["LOGNAME"] = shadow_user()
     # quiet the runtime's loggers unless asked otherwise
     import logging
     if not os.environ.get("VERIF_DEBUG"):
@@ -54,6 +55,8 @@ def child_env(extra: Optional[Dict[str, str]] = None) -> Dict[str, str]:
     env[GUARD] = "1"
     env["PYTHONDONTWRITEBYTECODE"] = "1"
     env["VERIF_TMP"] = scratch_root()
+    env["VERIF_TMP_OWNER_PID"] = os.environ["VERIF_TMP_OWNER_PID"]
+    env["LOGNAME"] = shadow_user()
     if extra:
         env.update(extra)
     return env
@@ -83,10 +86,18 @@ def scratch_root() -> str:
     return _SCRATCH
 
 
+def shadow_user() -> str:
+    """The repository puts a 'shadow' directory per experiment instance under the hard-coded
+    /tmp/chpc-<getpass.getuser()>-shadow and never removes it.  Every check run gets its own user name (LOGNAME is
+    what getpass.getuser() reads first), so that the owner of the run can remove exactly what the run created."""
+    return "verif-" + os.path.basename(scratch_root())
+
+
 def _cleanup_scratch():
     if _SCRATCH_OWNER and _SCRATCH and os.environ.get("VERIF_TMP_OWNER_PID") == str(os.getpid()):
         if not os.environ.get("VERIF_KEEP_TMP"):
             shutil.rmtree(_SCRATCH, ignore_errors=True)
+            shutil.rmtree(os.path.join("/tmp", "chpc-%s-shadow" % shadow_user()), ignore_errors=True)
 
 
 def mkscratch(prefix: str = "d") -> str:
